@@ -29,10 +29,9 @@ def gArgmax [Inhabited α] (lt : α → α → Bool) (t : Tensor α) (axis : Int
     .ok (ofFn (t.shape.eraseIdx ax) fun idx =>
       (argmaxList lt ((List.range n).map fun k => t.get (laneIdx ax idx k)) : Nat))
 
-/-- `ArgMax.Apply`. With keepdims the operator writes `1` into the slice returned by
-`inputs[0].Shape()` — the input's own header — before reshaping the result (effect: the input's shape
-is modified in place); without keepdims a rank-1 input gives a scalar whose `Data()` is not a slice:
-type-assert error. Returns the result and the new shape of the input if it was modified. -/
+/-- `ArgMax.Apply` (after the `fix:` commit that clones the input's shape before writing `1` into it).
+Without keepdims a rank-1 input gives a scalar whose `Data()` is not a slice: type-assert error.
+Returns the result and the new shape of the input if it was modified (never, since the fix). -/
 def argmaxOp [Inhabited α] (lt : α → α → Bool) (t : Tensor α) (axis : Int) (keepDims : Bool) :
     Res (Tensor Int × Option (List Nat)) :=
   let a := if axis < 0 then (t.shape.length : Int) + axis else axis
@@ -41,7 +40,7 @@ def argmaxOp [Inhabited α] (lt : α → α → Bool) (t : Tensor α) (axis : In
   | .ok r =>
     if keepDims then
       let newShape := t.shape.set a.toNat 1
-      .ok ({ r with shape := newShape }, if newShape = t.shape then none else some newShape)
+      .ok ({ r with shape := newShape }, none)
     else if r.shape = [] then .error .other
     else .ok (r, none)
 
